@@ -101,6 +101,10 @@ def run(e: Engine, rep: Report):
     poolorder.run(e, rep, 'R1.11')
     from . import storeback
     storeback.run(e, rep, 'R1.13')
+    rep.rule('R1.14', 'who-may-delete: in every backend the stored record '
+             'of a message is deleted only inside remove() and its private '
+             'helpers')
+    r114(e, rep)
     rep.floor('R1.2', 5, 'removal sites')
     rep.floor('R1.5', 3, 'backend uses of the index argument')
 
@@ -935,3 +939,71 @@ def r110(e: Engine, rep: Report):
         rep.ok('R1.10', 'slimta.queue', 'no builtin shadowed by a '
                'submodule is used', reason='checked every Name load in '
                'the package __init__')
+
+
+# ------------------------------------------------------------------- R1.14
+# what deletes a stored message, per backend (receiver attribute, primitive)
+RECORD_DELETERS = {
+    'slimta.diskstorage.DiskStorage': [('ops', 'delete_env'),
+                                       ('ops', 'delete_meta')],
+    'slimta.redisstorage.RedisStorage': [('redis', 'delete'),
+                                         ('redis', 'hdel')],
+    'slimta.cloudstorage.CloudStorage': [('obj_store', 'delete_message')],
+}
+
+
+def r114(e: Engine, rep: Report, rule: str = 'R1.14'):
+    """Who may delete a stored message: in every backend the record of a
+    message is deleted by remove() (and its private helpers) only - the call
+    the queue makes for a final disposition.  A scan, a getter or a cleanup
+    that deletes records drops messages nobody disposed of."""
+    rep.tables.add('c01.RECORD_DELETERS')
+    from . import storeback
+    n = 0
+    for cq in sorted(e.p.subclasses(STORAGE)):
+        c = e.p.classes[cq]
+        prims = list(RECORD_DELETERS.get(cq, []))
+        subs = storeback.substrate_attrs(e, cq)
+        owners = common.owner_closure(e, cq, {'remove'})
+        for mname, m in sorted(c.methods.items()):
+            for x in walk_own(m.node):
+                what = None
+                if isinstance(x, ast.Attribute) and \
+                        isinstance(x.ctx, ast.Load) and \
+                        isinstance(x.value, ast.Attribute) and \
+                        isinstance(x.value.value, ast.Name) and \
+                        x.value.value.id == 'self' and \
+                        (x.value.attr, x.attr) in prims:
+                    what = 'self.%s.%s' % (x.value.attr, x.attr)
+                elif isinstance(x, ast.Delete):
+                    for t in x.targets:
+                        if isinstance(t, ast.Subscript) and \
+                                isinstance(t.value, ast.Attribute) and \
+                                isinstance(t.value.value, ast.Name) and \
+                                t.value.value.id == 'self' and \
+                                t.value.attr in subs:
+                            what = 'del self.%s[...]' % t.value.attr
+                elif isinstance(x, ast.Call) and \
+                        isinstance(x.func, ast.Attribute) and \
+                        x.func.attr in ('pop', 'popitem', 'clear') and \
+                        isinstance(x.func.value, ast.Attribute) and \
+                        isinstance(x.func.value.value, ast.Name) and \
+                        x.func.value.value.id == 'self' and \
+                        x.func.value.attr in subs:
+                    what = 'self.%s.%s()' % (x.func.value.attr, x.func.attr)
+                if what is None:
+                    continue
+                n += 1
+                rep.evaluations += 1
+                rep.functions.add(m.qname)
+                rep.check(mname in owners, rule, m.qname,
+                          'stored record deleted by `%s`' % what,
+                          '%s deletes the stored record of a message '
+                          'outside remove(): a message that was neither '
+                          'delivered nor bounced (still being written, '
+                          'queued or in flight) disappears from storage'
+                          % m.qname, loc=m.loc(x),
+                          reason='inside remove() / its private helpers')
+    if n < 5:
+        rep.error('anchor vanished: record deletion sites of the backends '
+                  '(%d < 5)' % n)
